@@ -47,7 +47,11 @@ fn c11_replay(inp: &str, outp: &str) {
     let mut w = NdjsonWriter::create(outp);
     for case in &cases {
         let out = match case["kind"].as_str().unwrap_or("cell") {
-            "cell" | "walk" => vh_core::catch(|| if case["kind"] == "walk" { c11::replay_walk(case) } else { c11::replay_cell(case) })
+            "cell" | "walk" | "double" => vh_core::catch(|| match case["kind"].as_str() {
+                Some("walk") => c11::replay_walk(case),
+                Some("double") => c11::replay_double(case),
+                _ => c11::replay_cell(case),
+            })
                 .unwrap_or_else(|msg| json!({"conf": false, "mis": [{"field": "harness", "spec": "interpretable result", "real": msg}], "pv": []})),
             k => json!({"conf": false, "mis": [{"field": "kind", "spec": k, "real": "unknown"}], "pv": []}),
         };
